@@ -48,6 +48,24 @@ CLAIMED = {
              "the built-in formatter is checked with its digit generator replaced by an arbitrary-digits stub.",
         tech="CBMC bounded model checking with exact-size symbolic-length caller buffers (bounds checks as canaries)",
         ref="3 C15"),
+    "C17": dict(
+        text="The real block/array result functions write into a recording callback: the block header for every length of a symbolic "
+             "slice (plus every power of ten and 10^9-1) must be '#', digit count, digits decoding back to the length; block-data "
+             "accounting is checked from an ARBITRARY remaining-length/item-count state (refusal with -310 iff too long, counted as an "
+             "item exactly on completion, bytes unchanged); every SCPI_ResultArray<T> (10 element types, 0..3 elements of any bit "
+             "pattern, NORMAL and SWAPPED) must emit big-/little-endian images computed by shifts, under both a little-endian and a "
+             "big-endian target model; streamed header/data splits at every cut.",
+        tech="CBMC bounded model checking of real parser.c block/array emitters, recording write callback, both --little-endian and --big-endian target models",
+        ref="3 C17"),
+    "C18": dict(
+        text="Real SCPI_ResultError with a symbolic description (through a stubbed translation function; the real table is checked "
+             "separately for all 65536 codes) and a symbolic device text - absent, or any string over {y ; \"} up to the bound, in the "
+             "malloc configuration and wrapped at every offset of the static heap. The output is checked on the fly by a 488.2 string "
+             "reader in the write callback: <code>,\"...\" with every inner quote doubled, un-escaped content a prefix of "
+             "description[;text], at most LIMIT characters, cut as late as LIMIT allows. LIMIT is the real 255 in the thorough tier and "
+             "scaled (same code, macro overridden) in the quick tier.",
+        tech="CBMC bounded model checking of real SCPI_ResultError with streaming 488.2-string oracle in the write callback",
+        ref="3 C18"),
     "C20": dict(
         text="Refinement step on the circular string heap (static-heap build): from EVERY heap state satisfying the representation "
              "invariant (0..3 live non-empty strings at any rotation incl. wrapped, free bytes zero, exact count, cursor behind the "
